@@ -291,7 +291,12 @@ func (l *localFS) KeysPrefix(_ context.Context, token, prefix, delimiter string,
 	defer l.exclusive.Unlock()
 
 	noRoot := !strings.HasPrefix(prefix, "/")
+	isDirPrefix := strings.HasSuffix(prefix, "/")
 	prefix = path.Clean("/" + prefix)
+	if isDirPrefix && prefix != "/" {
+		// Clean strips the trailing separator: restore it, or keys under "{prefix}-x/" would match "{prefix}/"
+		prefix += "/"
+	}
 
 	// we cache the result for the duration of the fetch loop: during this period, localfs updates are not seen
 	search, ok := l.glob[prefix]
